@@ -23,11 +23,23 @@ def make_input(d, nbits=8, seed=0):
     return p, X
 
 
-def run_writer(writer, d, gulp, nbits=8, seed=0):
+OUTPUT_NAMES = {"extract_chans": ["oc_chan0001.tim", "oc_chan0005.tim"], "extract_bands": ["ob_sub00.fil", "ob_sub01.fil"], "ts_to_tim": ["out.tim"], "fs_to_spec": ["out.spec"]}
+
+
+def precreate_outputs(writer, d):
+    """Re-run scenario: the output names already exist as longer files from an earlier run (stale content)."""
+    for name in OUTPUT_NAMES.get(writer, ["out.fil"]):
+        with open(os.path.join(d, name), "wb") as fh:
+            fh.write(sigfile.encode_header(sigfile.std_items(nchans=NCH, nbits=8, source_name="STALE")) + bytes(range(256)) * 8)
+
+
+def run_writer(writer, d, gulp, nbits=8, seed=0, preexisting=False):
     """Perform the write inside directory d. Returns list of output paths."""
     from sigpyproc.readers import FilReader
 
     p, X = make_input(d, nbits, seed)
+    if preexisting:
+        precreate_outputs(writer, d)
     fil = FilReader(p)
     kw = {"gulp": gulp, "quiet": True, "description": "v"}
     out = os.path.join(d, "out.fil")
@@ -60,7 +72,7 @@ def run_writer(writer, d, gulp, nbits=8, seed=0):
 
 
 def child_main(argv):
-    """python -m vlib.c20_scen <writer> <dir> <gulp> <kill_after_k | -1>"""
+    """python -m vlib.c20_scen <writer> <dir> <gulp> <kill_after_k | -1> [pre]"""
     import faulthandler
 
     faulthandler.enable()
@@ -85,7 +97,7 @@ def child_main(argv):
     if k >= 0:
         wrap("write")
         wrap("cwrite")
-    outs = run_writer(writer, d, gulp)
+    outs = run_writer(writer, d, gulp, preexisting=len(argv) > 4 and argv[4] == "pre")
     sys.stdout.write("DONE " + " ".join(outs) + "\n")
     sys.stdout.flush()
     os._exit(0)
